@@ -117,6 +117,12 @@ pub open spec fn declared_symbol(s: asg::Stmt) -> Option<SymbolIdResult> {
         _ => None,
     }
 }
+/// C07: a classical declaration standing directly in a block (or at top level) binds -- or finds already bound -- its name in
+/// the scope of THAT block: the scope that is current where the statement stands
+pub open spec fn decl_bound(c: Context, s: synast::Stmt) -> bool {
+    s is ClassicalDeclarationStatement && s->ClassicalDeclarationStatement_0.sp_name() is Some
+        ==> c.in_current_scope(s->ClassicalDeclarationStatement_0.sp_name()->Some_0.sp_string())
+}
 /// C06: gate modifiers keep their kind and their order
 pub open spec fn mod_same(m: synast::Modifier, g: asg::GateModifier) -> bool {
     match m {
